@@ -14,7 +14,7 @@ import (
 func init() { Registry["C07"] = checkC07 }
 
 func checkC07(p *core.Prog, r *core.Report) {
-	r.Explanation = "Decides structural necessary conditions of restart recovery: (R1) the 64-byte log record: AofLock.Encode and Decode are inverse on every field byte, UpdateAofId rewrites exactly the id positions Encode uses, and Aof.lockAcked's direct reads (DbId, LockKey) hit the positions of that layout; (R2) every change of a persisted hold is logged: on every path of Lock/UnLock/doTimeOut/doExpried/DoAckLock/cancelWaitLock that removes a hold, changes its depth or updates its terms, the path tested the hold as not persisted, or pushes the matching log record before the shard mutex is released; (R3) the lazy persistence hook (AddExpried / AddMillisecondExpried) pushes only when the hold is not yet persisted and persistable, and AddExpried pushes one LOCK record per depth level (replay rebuilds depth from the number of records); (R4) the value blob of a record is written right after its record iff the record announces it (Aof.PushLock) and read before any skip (LoadAofFile); (R5) replayed records are marked FROM_AOF before they reach the engine, and the push functions return before logging a replayed command (no re-logging); (R6) the three places that interpret a record's remaining lifetime dispatch on the same unit flags. (R6) every list of log files built from FindAofFiles (start-up load, compaction, transfer) puts the snapshot before the append files - the list is the replay order. (R7) UnLock clears a hold's persisted mark only on paths that remove the hold (a partial release keeps it). NOT decided: numeric round-trip of remaining lifetime, rotation across files, equality of the recovered snapshot."
+	r.Explanation = "Decides structural necessary conditions of restart recovery: (R1) the 64-byte log record: AofLock.Encode and Decode are inverse on every field byte, UpdateAofId rewrites exactly the id positions Encode uses, and Aof.lockAcked's direct reads (DbId, LockKey) hit the positions of that layout; (R2) every change of a persisted hold is logged: on every path of Lock/UnLock/doTimeOut/doExpried/DoAckLock/cancelWaitLock that removes a hold, changes its depth or updates its terms, the path tested the hold as not persisted, or pushes the matching log record before the shard mutex is released; (R3) the lazy persistence hook (AddExpried / AddMillisecondExpried) pushes only when the hold is not yet persisted and persistable, and AddExpried pushes one LOCK record per depth level (replay rebuilds depth from the number of records); (R4) the value blob of a record is written right after its record iff the record announces it (Aof.PushLock) and read before any skip (LoadAofFile); (R5) replayed records are marked FROM_AOF before they reach the engine, and the push functions return before logging a replayed command (no re-logging); (R6) the three places that interpret a record's remaining lifetime dispatch on the same unit flags. (R6) every list of log files built from FindAofFiles (start-up load, compaction, transfer) puts the snapshot before the append files - the list is the replay order. (R7) UnLock clears a hold's persisted mark only on paths that remove the hold (a partial release keeps it). (R8) a Lock object enters the pool (or leaves it) with its persisted mark cleared. NOT decided: numeric round-trip of remaining lifetime, rotation across files, equality of the recovered snapshot."
 	r.Assumptions = []string{"Go type checker and go/ssa are correct for /repo", "the layout extractor interprets all byte stores of the record codec (uninterpreted statements are reported)"}
 	c07R1(p, r)
 	c07R2(p, r)
@@ -24,6 +24,7 @@ func checkC07(p *core.Prog, r *core.Report) {
 	c07R5(p, r)
 	logFileOrderRule(p, r, "C07/R6")
 	c07R7(p, r)
+	c07R8(p, r)
 }
 
 func fieldLoadPred(fn *ssa.Function, typ, field string) func(ssa.Value) bool {
@@ -474,5 +475,117 @@ func c07R7(p *core.Prog, r *core.Report) {
 	}
 	if n == 0 {
 		r.Fail("C07/R7: no path of UnLock clears the persisted mark")
+	}
+}
+
+// c07R8: the persisted mark of a hold (Lock.isAof) gates the lazy persistence
+// hook: a hold that carries it is never written. Lock objects are pooled; one
+// that enters the pool with the mark set is handed to a later, unrelated hold,
+// which is then never persisted (start-up replay frees replayed holds without
+// passing through the unlock path that clears the mark).
+func c07R8(p *core.Prog, r *core.Report) {
+	const rule = "C07/R8"
+	r.Rule(rule, "a recycled Lock object starts without the persisted mark: every path that puts a Lock into the pool cleared isAof first, or the pool's reuse path clears it", 1)
+	mark := fk("server.Lock", "isAof")
+	storesFalse := func(x *core.X) (string, bool) {
+		st, ok := x.Ins.(*ssa.Store)
+		if !ok {
+			return "", false
+		}
+		fa, ok := st.Addr.(*ssa.FieldAddr)
+		if !ok || core.FieldKeyOf(fa.X.Type(), fa.Field) != mark {
+			return "", false
+		}
+		if x.Canon(st.Val).S != "false" {
+			return "", false
+		}
+		return core.Plain(x.Canon(fa.X).S), true
+	}
+	// put side
+	puts, badPut, badPos := 0, []string{}, ""
+	var badPath []string
+	for _, fn := range p.FuncsIn("server") {
+		if fn.Blocks == nil || p.IsNewFunc(fn) {
+			continue
+		}
+		has := false
+		for _, b := range fn.Blocks {
+			for _, ins := range b.Instrs {
+				if calleeIs(ins, "LockQueue", "Push") {
+					if args := core.CallArgs(ins); len(args) > 0 {
+						if u, ok := args[0].(*ssa.UnOp); ok {
+							if fa, ok := u.X.(*ssa.FieldAddr); ok && core.FieldKeyOf(fa.X.Type(), fa.Field).Field == "freeLocks" {
+								has = true
+							}
+						}
+					}
+				}
+			}
+		}
+		if !has {
+			continue
+		}
+		name := core.FuncName(fn)
+		ex := core.NewExplorer(p, core.Hooks{
+			Instr: func(x *core.X) {
+				if base, ok := storesFalse(x); ok {
+					x.Set("clr:"+base, "1")
+					return
+				}
+				if !calleeIs(x.Ins, "LockQueue", "Push") || !strings.HasSuffix(core.Plain(argCanon(x, x.Ins, 0)), ".freeLocks") {
+					return
+				}
+				puts++
+				obj := core.Plain(argCanon(x, x.Ins, 1))
+				if x.Get("clr:"+obj) != "1" {
+					badPut = append(badPut, name)
+					if badPos == "" {
+						badPos, badPath = x.Pos(), x.St.Trace
+					}
+				}
+			},
+		})
+		ex.NoHist = true
+		ex.Run(fn, nil)
+		if ex.Imprecise != "" {
+			r.Fail("C07/R8 %s: %s", name, ex.Imprecise)
+		}
+	}
+	// get side
+	getClears := false
+	if get := p.Func("server.(*LockManager).GetOrNewLock"); get != nil {
+		reuse, cleared := 0, 0
+		ex := core.NewExplorer(p, core.Hooks{
+			Instr: func(x *core.X) {
+				if base, ok := storesFalse(x); ok {
+					x.Set("clr:"+base, "1")
+				}
+			},
+			Exit: func(x *core.X, rets []core.Expr) {
+				if len(rets) != 1 || !strings.Contains(rets[0].S, "PopRight(") {
+					return
+				}
+				reuse++
+				if x.Get("clr:"+core.Plain(rets[0].S)) == "1" {
+					cleared++
+				}
+			},
+		})
+		ex.NoHist = true
+		ex.Run(get, nil)
+		getClears = reuse > 0 && reuse == cleared
+	}
+	if puts == 0 {
+		r.Fail("C07/R8: no function puts a Lock into the free pool")
+		return
+	}
+	key := "Lock pool: recycled object starts without the persisted mark"
+	switch {
+	case len(badPut) == 0:
+		r.Hold(rule, key, "-", fmt.Sprintf("cleared before each of %d put paths", puts))
+	case getClears:
+		r.Hold(rule, key, "-", "cleared on the reuse path of GetOrNewLock")
+	default:
+		r.Violate(rule, key, badPos, "a Lock goes into the free pool without isAof cleared (in "+strings.Join(badPut, ", ")+") and the reuse path does not clear it either: a replayed hold freed during start-up leaves the mark set, the next hold that recycles the object is taken for already persisted and is never written to the log", badPath)
 	}
 }
